@@ -57,6 +57,7 @@ type jPool struct {
 	NoSched   bool   `json:"no_schedule_taint,omitempty"`
 	Deleting  bool   `json:"deleting,omitempty"`
 	ConsAfter string `json:"consolidate_after,omitempty"` // "" = 30s | 0s | Never
+	ZoneReq   string `json:"zone_requirement,omitempty"`  // spec.template.spec.requirements: zone In [value]
 }
 
 type jIT struct {
@@ -159,6 +160,7 @@ type jWorld struct {
 	DRA        bool    `json:"dra_enabled,omitempty"`                     // IgnoreDRARequests=false
 	MaxITs     int     `json:"max_instance_types,omitempty"`              // scheduling.MaxInstanceTypes for this world (0 = default 600)
 	Buffer     int     `json:"capacity_buffer_replicas,omitempty"`        // CapacityBuffer feature gate + one ready buffer
+	ZoneAlias  bool    `json:"zone_value_aliases_registered,omitempty"`   // v1.NormalizedLabelValues[zone] = {zone-alias-k: test-zone-k}; pods / pools / buffer use the aliases
 	BatchMax   int     `json:"batch_max_duration_s,omitempty"`            // 0 = default; sets the nomination window max(2*d, 10s)
 	CPUReq     int     `json:"cpu_requests_m,omitempty"`                  // 0 = default; number of scheduler workers of a provisioning pass
 	DefaultTSC string  `json:"scheduler_config_default_spread,omitempty"` // "" | ScheduleAnyway | DoNotSchedule (+ a Service selecting the pods)
@@ -403,6 +405,36 @@ func genWorld(r *kit.Rand, thorough bool) jWorld {
 		w.DaemonSets = append(w.DaemonSets, d)
 	}
 	w.PDB = r.Chance(1, 6)
+	// a provider-registered value mapping (e.g. zone ids -> zone names): requirement values written with the alias
+	w.ZoneAlias = r.Chance(1, 3)
+	if w.ZoneAlias {
+		alias := func(z string) string {
+			if (z == "test-zone-1" || z == "test-zone-2") && r.Chance(2, 3) {
+				return "zone-alias-" + z[len(z)-1:]
+			}
+			return z
+		}
+		for i := range w.Pending {
+			w.Pending[i].PrefZone, w.Pending[i].ReqZone = alias(w.Pending[i].PrefZone), alias(w.Pending[i].ReqZone)
+		}
+		for ni := range w.Nodes {
+			for i := range w.Nodes[ni].Pods {
+				p := &w.Nodes[ni].Pods[i]
+				if p.PrefZone == "" && p.ReqZone == "" && r.Chance(1, 2) {
+					p.ReqZone = w.Nodes[ni].Zone // a running pod pinned to the zone it runs in
+				}
+				p.PrefZone, p.ReqZone = alias(p.PrefZone), alias(p.ReqZone)
+			}
+		}
+		for i := range w.DaemonSets {
+			w.DaemonSets[i].ReqZone = alias(w.DaemonSets[i].ReqZone)
+		}
+		for i := range w.Pools {
+			if r.Chance(1, 3) {
+				w.Pools[i].ZoneReq = alias(kit.Pick(r, []string{"test-zone-1", "test-zone-2"}))
+			}
+		}
+	}
 	w.DRA = r.Chance(1, 3)
 	if r.Chance(1, 8) {
 		w.MaxITs = r.Range(1, 3)
@@ -740,6 +772,10 @@ func newWorld(j jWorld) *world {
 		if jp.Static {
 			np.Spec.Replicas = ptr(int64(1))
 		}
+		if jp.ZoneReq != "" {
+			np.Spec.Template.Spec.Requirements = append(np.Spec.Template.Spec.Requirements, v1.NodeSelectorRequirementWithMinValues{
+				Key: corev1.LabelTopologyZone, Operator: corev1.NodeSelectorOpIn, Values: []string{jp.ZoneReq, "test-zone-3"}})
+		}
 		if jp.NoTypes {
 			np.Spec.Template.Spec.Requirements = append(np.Spec.Template.Spec.Requirements, v1.NodeSelectorRequirementWithMinValues{
 				Key: corev1.LabelTopologyZone, Operator: corev1.NodeSelectorOpIn, Values: []string{"no-such-zone"}})
@@ -852,7 +888,8 @@ func newWorld(j jWorld) *world {
 			PodOptions: test.PodOptions{
 				ObjectMeta:           metav1.ObjectMeta{Labels: map[string]string{"app": "c18"}},
 				ResourceRequirements: corev1.ResourceRequirements{Requests: corev1.ResourceList{corev1.ResourceCPU: resource.MustParse("300m")}},
-				NodePreferences:      []corev1.NodeSelectorRequirement{{Key: corev1.LabelTopologyZone, Operator: corev1.NodeSelectorOpIn, Values: []string{"no-such-zone"}}},
+				NodePreferences:      []corev1.NodeSelectorRequirement{{Key: corev1.LabelTopologyZone, Operator: corev1.NodeSelectorOpIn, Values: []string{lo.Ternary(j.ZoneAlias, "zone-alias-2", "no-such-zone")}}},
+				NodeRequirements:     lo.Ternary(j.ZoneAlias, []corev1.NodeSelectorRequirement{{Key: corev1.LabelTopologyZone, Operator: corev1.NodeSelectorOpNotIn, Values: []string{"zone-alias-1"}}}, nil),
 				TopologySpreadConstraints: lo.Ternary(j.Buffer == 1, []corev1.TopologySpreadConstraint{{MaxSkew: 1, TopologyKey: corev1.LabelTopologyZone, WhenUnsatisfiable: corev1.ScheduleAnyway,
 					LabelSelector: &metav1.LabelSelector{MatchLabels: map[string]string{"app": "c18"}}}}, nil),
 			}}))
